@@ -62,6 +62,8 @@ def run(rep, tier):
         leading(rep, meta, g, sfx)
         ruleenum(rep, meta, g, sfx)
         unescaped(rep, meta, sfx)
+        if cfg == "extras":
+            tagwrap(rep, meta, sfx)
     lexicon(rep, g)
     tokens(rep, g, "")
     tokens_generated(rep)
@@ -826,3 +828,44 @@ def tokens_generated(rep):
         r.violation("decompile", "meta/src/grammar.rs", "grammar.rs is not understood: %s" % e)
         return
     tokens(rep, g, "@generated", "meta/src/grammar.rs")
+
+
+# ------------------------------------------------------------------ TAGWRAP (grammar-extras)
+
+def tagwrap(rep, meta, sfx):
+    r = rep.rule("C07.TAGWRAP" + sfx, 1,
+                 "a node tag taken off the front of a term is put back around whatever the term reads as: in the function "
+                 "that calls get_node_tag, every successful result is produced under the final test of the tag - no "
+                 "`return Ok(..)` leaves earlier (a tag in front of `&e` / `!e` would be dropped silently)")
+    GT = "pest_meta::parser::get_node_tag"
+    n = 0
+    for fn in meta.bodies:
+        if fn.get("body") is None or fn.get("exp") or not fn["path"].startswith("pest_meta::parser::"):
+            continue
+        calls = [x for x in hirq.walk_no_closures(fn["body"]) if kind(x) == "Call" and callee(x) == GT]
+        if not calls:
+            continue
+        n += 1
+        key = fn["path"].replace("pest_meta::parser::", "")
+        r.instance(key, where(fn["body"]))
+        # the tag local: bound by the tuple pattern of the let whose init is the call
+        tag_ids = set()
+        for st in walk(fn["body"]):
+            if st.get("k") == "Let" and st.get("init") is not None and any(x is calls[0] for x in walk(st["init"])):
+                for (bid, nm) in hirq.pat_bindings(st["pat"]):
+                    tag_ids.add(bid)
+        tests = [x for x in hirq.walk_no_closures(fn["body"]) if kind(x) == "If" and kind(peel(x["cond"])) == "LetExpr"
+                 and hirq.local_id(peel(x["cond"])["init"]) in tag_ids]
+        wraps = [x for x in walk(fn["body"]) if kind(x) == "Call" and callee(x) == PE + "::NodeTag"]
+        if not tests or not wraps:
+            r.violation(key, where(fn["body"]), "the tag returned by get_node_tag is never tested / never wrapped around the node")
+            continue
+        inside = set(id(y) for t0 in tests for y in walk(t0))
+        for x in hirq.walk_no_closures(fn["body"]):
+            if kind(x) == "Ret" and x.get("e") is not None and id(x) not in inside and not hirq.is_desugar(x):
+                v = peel(x["e"])
+                if kind(v) == "Call" and callee(v) == "core::result::Result::Ok":
+                    r.violation(key, where(x), "%s returns Ok(..) before the tag taken off by get_node_tag is put back: "
+                                "`#t = !a` reads as NegPred(a), the tag is lost without an error" % fn["name"])
+    if n == 0:
+        r.lost("the reader function that calls get_node_tag")
